@@ -700,7 +700,7 @@ Proof. intros H n Hn. rewrite forallb_forall in H. specialize (H n Hn). apply ne
 Theorem C06_holds_proof : forall c, wf c = true -> kf c = 0%N -> spec c (model c) = true.
 Proof.
   intros c Hwf _. pose proof (wf_wf_facts c Hwf) as F.
-  unfold spec, model. cbn [o_list o_tar].
+  unfold spec, model. cbn [o_list o_tar o_extract].
   destruct (stage_list (c_in c)) as [ms0| |] eqn:E; cbn [map_res];
     [|reflexivity|exfalso; exact (stage_list_nopanic _ E)].
   apply stage_list_inv in E as (mf & Hm & ->).
